@@ -285,7 +285,10 @@ fn job_text(job: &Value) -> Result<Value, String> {
         "rename_tree" => {
             // validate_props_and_rename_vars on a tree given as JSON (built with the public constructors)
             let bn = load_bn(job)?;
-            let ctx = SymbolicContext::new(&bn)?;
+            // k auxiliary variable sets (what every model_check_* entry point passes in); 0 = SymbolicContext::new
+            let k = job["k"].as_u64().unwrap_or(0) as u16;
+            let stg_k = if k > 0 { Some(get_extended_symbolic_graph(&bn, k)?) } else { None };
+            let ctx = match &stg_k { Some(g) => g.symbolic_context().clone(), None => SymbolicContext::new(&bn)? };
             let tree = tree_from_json(&job["tree"]);
             let built = tree_json(&tree);
             let mut r = res_json(catch_unwind(AssertUnwindSafe(|| validate_props_and_rename_vars(tree.clone(), &ctx))), tree_json);
